@@ -23,17 +23,20 @@ import (
 )
 
 type vSlotScenario struct {
-	ID       string          `json:"id"`
-	Seed     int64           `json:"seed"`
-	Strategy string          `json:"strategy"`
-	Plan     []string        `json:"plan"`
-	UserA    [][]interface{} `json:"usera"` // ops on A: ["Close"] ["Release"] ["Next",n] ["Write",n] ["IsActive"] ["Yield"]
-	PeerA    [][]interface{} `json:"peera"` // ["send",n] ["close"]
-	PeerB    [][]interface{} `json:"peerb"` // ["send",n]
-	OpenB    string          `json:"openb"` // "afterclose" | "any" | "afterbatch" (A's slot released and a poller batch ended since)
-	Drain    bool            `json:"drain"` // empty the operator free list before B is opened
-	WithG    bool            `json:"withg"` // a third connection G whose hang-up handling is slow (OnDisconnect yields)
-	PeerG    [][]interface{} `json:"peerg"` // ["close"]
+	StallName string          `json:"stallname"`
+	StallPt   int             `json:"stallpt"`
+	StallOcc  int             `json:"stallocc"`
+	ID        string          `json:"id"`
+	Seed      int64           `json:"seed"`
+	Strategy  string          `json:"strategy"`
+	Plan      []string        `json:"plan"`
+	UserA     [][]interface{} `json:"usera"` // ops on A: ["Close"] ["Release"] ["Next",n] ["Write",n] ["IsActive"] ["Yield"]
+	PeerA     [][]interface{} `json:"peera"` // ["send",n] ["close"]
+	PeerB     [][]interface{} `json:"peerb"` // ["send",n]
+	OpenB     string          `json:"openb"` // "afterclose" | "any" | "afterbatch" (A's slot released and a poller batch ended since)
+	Drain     bool            `json:"drain"` // empty the operator free list before B is opened
+	WithG     bool            `json:"withg"` // a third connection G whose hang-up handling is slow (OnDisconnect yields)
+	PeerG     [][]interface{} `json:"peerg"` // ["close"]
 }
 
 type vSlotRun struct {
@@ -125,6 +128,7 @@ func vRunSlotScenario(sc *vSlotScenario) ([]vOutEvent, map[string]interface{}) {
 		s.UsePCT(3, 80)
 	}
 	s.plan = sc.Plan
+	s.stallName, s.stallPt, s.stallOcc = sc.StallName, int32(sc.StallPt), sc.StallOcc
 	r := &vSlotRun{sc: sc, s: s}
 	s.emit = r.ev
 	mp := vNewManualPoll(s, "poller")
@@ -278,7 +282,7 @@ func vRunSlotScenario(sc *vSlotScenario) ([]vOutEvent, map[string]interface{}) {
 		r.ev("PeerSend", "B", w, 0, "")
 	})
 	s.Run()
-	info := map[string]interface{}{"id": sc.ID, "steps": len(s.taken), "taken": s.taken, "stuck": s.stuck, "deadlock": s.deadlock, "drift": s.drift}
+	info := map[string]interface{}{"id": sc.ID, "steps": len(s.taken), "taken": s.taken, "gates": s.gateLog, "stalled": s.stalled, "stuck": s.stuck, "deadlock": s.deadlock, "drift": s.drift}
 	// epilogue outside the scheduler: B must still receive a packet and close cleanly
 	verifHook = func(pt int32, obj unsafePointer, a, b int64) { s.hookTraceOnly(pt, obj, a, b) }
 	e := &vAfterEnv{mp: mp}
